@@ -100,7 +100,7 @@ func (x *Exec) immutCheck(st *State, l *Loc) {
 	if st.ghost["fresh:"+l.Base.S].S == "true" {
 		return
 	}
-	x.oblige(st, "FRAME", fmt.Sprintf("immutable(%s.%s at %s)", named.Obj().Name(), fname, x.posText(x.curPos)), False, "store to a field declared immutable after construction")
+	x.oblige(st, "FRAME", fmt.Sprintf("immutable(%s.%s at %s)", named.Obj().Name(), fname, x.posText(x.curPos)), x.isFresh(st, l.Base), "store to a field declared immutable after construction")
 }
 
 func (x *Exec) lockEffects(st *State, ctr *Contract, env *Env) {}
@@ -306,6 +306,15 @@ func (x *Exec) loopEntry(fr *Frame, st *State, h *ssa.BasicBlock, ord int) bool 
 	}
 	st.ghost[fmt.Sprintf("autoinv:%p", h)] = True
 	fr.autoInv(h, auto)
+	// O-TERM: value of the measure at the head of this iteration, and the
+	// position in the call log (for `progress` clauses)
+	if fr.isEntry && x.ctr != nil {
+		for i, c := range x.ctr.Decreases[ord] {
+			m := env2.eval(c.Expr)
+			st.ghost[fmt.Sprintf("measure:%d:%d", ord, i)] = m.T
+		}
+		st.ghost[fmt.Sprintf("callmark:%d", ord)] = IntLit(int64(len(st.calls)))
+	}
 	return true
 }
 
@@ -428,6 +437,31 @@ func (x *Exec) loopBackEdge(fr *Frame, st *State, h *ssa.BasicBlock, ord int) {
 	env := x.loopEnv(fr, st, h)
 	for _, c := range invs {
 		x.oblige(st, "INV", fmt.Sprintf("loop%d/preserved(%s)", ord, c.Src), x.evalBool(env, c.Expr), "loop invariant preserved")
+	}
+	if fr.isEntry && x.ctr != nil {
+		for i, c := range x.ctr.Decreases[ord] {
+			m0, ok := st.ghost[fmt.Sprintf("measure:%d:%d", ord, i)]
+			if !ok {
+				continue
+			}
+			m := env.eval(c.Expr)
+			x.oblige(st, "TERM", fmt.Sprintf("loop%d/decreases(%s)", ord, c.Src), And(Le(IntLit(0), m.T), Lt(m.T, m0)), "loop measure must be non-negative and strictly decrease")
+		}
+		for _, want := range x.ctr.Progress[ord] {
+			mark := 0
+			if t, ok := st.ghost[fmt.Sprintf("callmark:%d", ord)]; ok {
+				if n, ok := modelInt(t.S); ok {
+					mark = int(n)
+				}
+			}
+			found := false
+			for _, ev := range st.calls[mark:] {
+				if strings.Contains(ev.Desc, want) || (ev.Static != nil && ev.Static.Name() == want) {
+					found = true
+				}
+			}
+			x.oblige(st, "TERM", fmt.Sprintf("loop%d/progress(%s)", ord, want), BoolLit(found), "every iteration must consume one server answer (call "+want+")")
+		}
 	}
 }
 
